@@ -1,10 +1,58 @@
-(* C13 (growing) *)
-From GF Require Import Base.Bytes Model.Mem Model.MemVersions.
-Theorem C13_latest_is_current : forall k o e, In e (obj_versions k o) -> ve_latest e = true ->
-  exists c, o_data o = Some c /\ ve_vid e = vd_vid c.
-Proof.
-  intros k o e H Hl. unfold obj_versions in H. apply in_app_or in H as [H|H].
-  - apply in_map_iff in H as (v & <- & _). discriminate.
-  - destruct (o_data o) as [c|]; [|contradiction]. destruct H as [<-|[]]. exists c. split; reflexivity.
-Qed.
-Print Assumptions C13_latest_is_current.
+(* C13 — Version listings show each version once, flag the true latest, page completely.
+   Model: Model/MemVersions.v (obj_versions, take_versions, scan_versions, list_versions) and
+   Model/VersionWalk.v (a client following NextKeyMarker / NextVersionIdMarker). *)
+From GF Require Import Base.Bytes Base.SortedMap Model.Prefix Model.Mem Model.MemVersions Model.VersionWalk
+  Proofs.SortedMapFacts Proofs.MemInvDef Proofs.VersionListProofs.
+Open Scope Z_scope.
+
+(* the unpaginated listing is exactly every stored version and delete marker of every listed
+   key, grouped by key in ascending key order, and is not truncated *)
+Theorem C13_exact : forall pre delim items,
+  vl_entries (vunpaged pre delim items) = all_versions pre delim items /\
+  vl_truncated (vunpaged pre delim items) = false.
+Proof. exact vunpaged_exact. Qed.
+Print Assumptions C13_exact.
+
+(* exactly one entry per key is flagged IsLatest: the current version ... *)
+Theorem C13_one_latest : forall k o next,
+  obj_ok next o ->
+  exists c pre_entries,
+    o_data o = Some c /\
+    obj_versions k o = pre_entries ++ [{| ve_key := k; ve_vid := vd_vid c; ve_marker := vd_marker c;
+                                          ve_latest := true; ve_body := vd_body c |}] /\
+    Forall (fun e => ve_latest e = false) pre_entries.
+Proof. exact one_latest. Qed.
+Print Assumptions C13_one_latest.
+
+(* ... which is the version an unqualified read resolves to (NoSuchKey for a delete marker) *)
+Theorem C13_latest_is_what_get_serves : forall s b k bk o c,
+  get_bucket s b = Some bk -> sm_get k (b_objs bk) = Some o -> o_data o = Some c ->
+  (vd_marker c = false -> exists sv, get_object s b k = OObj c sv) /\
+  (vd_marker c = true -> get_object s b k = OErr ENoSuchKey).
+Proof. exact latest_is_what_get_serves. Qed.
+Print Assumptions C13_latest_is_what_get_serves.
+
+(* every version appears once: the ids within a key are strictly ascending *)
+Theorem C13_each_version_once : forall k o next, obj_ok next o -> vids_ascending (obj_versions k o).
+Proof. exact obj_versions_ascending. Qed.
+Print Assumptions C13_each_version_once.
+
+(* following the markers of truncated responses terminates (fuel = number of entries + 1) and the
+   pages concatenate to exactly the unpaginated listing: none skipped, none repeated; every page
+   respects max-keys *)
+Theorem C13_paging_complete : forall pre delim mk objs next,
+  1 <= mk -> sorted objs -> (forall k o, In (k, o) objs -> obj_ok next o) -> ~ In [] (map fst objs) ->
+  exists pages,
+    vwalk (S (length (all_versions pre delim objs))) pre delim mk objs [] None = Some pages /\
+    flat_map vl_entries pages = vl_entries (vunpaged pre delim objs) /\
+    Forall (fun r => Z.of_nat (length (vl_entries r)) <= mk) pages /\
+    (exists r, last (map Some pages) None = Some r /\ vl_truncated r = false).
+Proof. exact vwalk_complete. Qed.
+Print Assumptions C13_paging_complete.
+
+(* non-vacuity: two versions and a delete marker of one key, paged one entry at a time *)
+Definition c13_v (id : N) (mk : bool) : vdata := {| vd_vid := id; vd_null := false; vd_marker := mk; vd_body := [id]; vd_meta := [] |}.
+Definition c13_objs : list (list N * obj) := [([107]%N, {| o_data := Some (c13_v 3 true); o_vers := [c13_v 1 false; c13_v 2 false] |})].
+Example C13_ex :
+  option_map (map (fun r => map ve_vid (vl_entries r))) (vwalk 4 [] None 1 c13_objs [] None) = Some [[1%N]; [2%N]; [3%N]].
+Proof. vm_compute. reflexivity. Qed.
